@@ -298,6 +298,8 @@ type doRec struct {
 
 const readTimeout = 150 * time.Millisecond
 
+var directCloses int64
+
 func oneRun(w *mon.W, c *mon.Case) {
 	r := c.R
 	log := &runLog{}
@@ -381,12 +383,22 @@ func oneRun(w *mon.W, c *mon.Case) {
 				rec.err = hc.Do(ctx, req, resp)
 				if rec.err == nil {
 					if resp.IsBodyStream() {
-						b, berr := io.ReadAll(resp.BodyStream())
+						bs := resp.BodyStream()
+						b, berr := io.ReadAll(bs)
 						rec.body = string(b)
 						if berr != nil {
 							rec.err = fmt.Errorf("body stream: %w", berr)
 						}
-						resp.CloseBodyStream()
+						// the ways callers end a streamed response: through the response, or by
+						// releasing the response only.  (Closing the stream object itself through a
+						// type assertion and then releasing the response closes it twice; the second
+						// Close acts on an object that is already back in its pool — outside the
+						// API's contract, BodyStream() is an io.Reader — and is not generated.)
+						if gr.Bool() {
+							resp.CloseBodyStream()
+						} else {
+							atomic.AddInt64(&directCloses, 1)
+						}
 					} else {
 						rec.body = string(resp.Body())
 					}
@@ -411,6 +423,7 @@ func oneRun(w *mon.W, c *mon.Case) {
 	close(stop)
 	<-sdone
 	w.Count("runs", 1)
+	w.Count("streams_closed_by_release_only", atomic.SwapInt64(&directCloses, 0))
 	w.Count("exchanges", int64(G*M))
 	w.Count("gauge_samples", int64(samples))
 
